@@ -68,6 +68,7 @@ type Config struct {
 	NoSched   bool  // do not create schedule choice points (always run default)
 	SwitchCost int  // cost of a non-default choice when the running thread is blocked or done (0 = free, as in CHESS)
 	YieldPkg  bool  // activate the package-wide statement yields (hashmap)
+	YieldTicks bool // every function entry and loop iteration executed by a thread other than the driver is a scheduling point
 	TraceOps  bool  // record the sequence of sync operations (for diagnostics)
 	FloatMenu []float64
 }
@@ -425,8 +426,8 @@ func Yield(site string) {
 // (hashmap); only active when the execution asks for it.
 func YieldPkg(site string) {
 	x := X
-	if x == nil || !x.cfg.YieldPkg {
-		return
+	if x == nil || !x.cfg.YieldPkg || x.cfg.NoSched || x.over || x.cur == nil || x.cur.id == 0 {
+		return // the driver thread itself is not preempted between statements: only the threads it started
 	}
 	x.point(site, -1, nil)
 }
@@ -443,6 +444,9 @@ func Tick() {
 			panic(abortSentinel{})
 		}
 		x.abort(VFuel, "fuel exhausted: "+caller(2))
+	}
+	if x.cfg.YieldTicks && !x.cfg.NoSched && x.cur != nil && x.cur.id != 0 && !x.over {
+		x.point("tick", -1, nil)
 	}
 }
 
